@@ -158,6 +158,19 @@ def rp1(model):
             continue
         mn = max_newlines(list(tree))
         lo, hi = tree.getwidth()
+        # "any white space": every white-space character except the line break is accepted as (part
+        # of) the separator - evaluated on the literal pattern itself
+        import re as _re
+        ws = [' ', '\t', '\xa0', '\u202f', '\u2009', '\r', '\f', '\v']
+        try:
+            rejected = [ch for ch in ws if not _re.fullmatch(c.value, ch)]
+        except _re.error:
+            rejected = []
+        if rejected:
+            r.fail(c, 'the word separator does not accept the white-space character(s) %s: a phrase whose '
+                   'words are separated by a no-break space (LaTeX ~) or a thin space (\\,) in the text is not '
+                   'replaced' % ', '.join('U+%04X' % ord(x) for x in rejected),
+                   witness="rule 'so dass & sodass' on the LaTeX text so~dass")
         if mn == 1 and lo >= 1:
             r.ok(c, 'separator matches >= 1 character and at most one line break', nontrivial=True)
         else:
